@@ -171,6 +171,7 @@ func InnerJoin(ctx context.Context, scope *ReferenceScope, view *View, joinView 
 		for i := start; i < end; i++ {
 			vhook.Yield("join.row", thIdx)
 			for j := 0; j < joinView.RecordLen(); j++ {
+				vhook.Yield("join.inner.row", thIdx)
 				if gm.HasError() {
 					break InnerJoinLoop
 				}
@@ -283,6 +284,7 @@ func OuterJoin(ctx context.Context, scope *ReferenceScope, view *View, joinView 
 			vhook.Yield("join.row", thIdx)
 			match := false
 			for j := 0; j < joinView.RecordLen(); j++ {
+				vhook.Yield("join.inner.row", thIdx)
 				if gm.HasError() {
 					break OuterJoinLoop
 				}
